@@ -18,7 +18,7 @@ BOUND = {"quick": "k = 0..40 x ne = 1..12 x 2 settings on a 6-cell base (first c
          "thorough": "same on an 11-cell base incl. mixed lengths, all sub-tissues of an 11-cell base, depth 3"}
 ASSUMPTIONS = ["contraction is only defined when the two-point border interfaces are pairwise vertex-disjoint; chained ones (the library refuses them) give no verdict",
                "a contracted pair of vertices is identified with its new midpoint vertex when cycles and interfaces are compared"]
-REQUIRED_TAGS = {"all": ["lost_points", "contracted", "unchanged_short", "idempotence_checked", "negative_coordinates", "ne1"]}
+REQUIRED_TAGS = {"all": ["lost_points", "contracted", "unchanged_short", "idempotence_checked", "negative_coordinates", "ne1", "border_junction_3cells"]}
 
 
 def snapshot(v, e, c):
@@ -225,11 +225,15 @@ class Resampling:
         if cells:
             at = T.sub_tissue(at, cells)
         cm = T.CMap([T.mob(0.03 + 0.01j), T.aff(1.0, complex(shift[0], shift[1]))])
+        if base == "lens" and d["k"] == 0:
+            return {"viol": [], "tags": ["lens_k0_outside"], "cls": "lens-k0", "outdom": True}
         with fsutil.quiet():
             v, e, c, info = T.realise(at, k=d["k"], cmap=cm)
         tags, viol, known = [], [], []
         if shift[0] < 0 or shift[1] < 0:
             tags.append("negative_coordinates")
+        if any(len(x.ownCells) >= 3 and len(x.ownEdges) >= 4 and any(len(e[k_].v1.ownCells) < 2 or len(e[k_].v2.ownCells) < 2 for k_ in x.ownEdges) for x in v.values()):
+            tags.append("border_junction_3cells")
         before = None
         for n, (ne, rse) in enumerate(d["ops"]):
             before = snapshot(v, e, c)
@@ -277,12 +281,16 @@ def build(tier, seed):
     if tier == "quick":
         b6 = c07.first_connected("v5x5", 6)
         subs = [["v5x4", S, [0, 0]] for S in T.connected_subsets(bases.get("v5x4"))]
-        return [Resampling("lengths", [["v5x5", b6, [0, 0]], ["v5x5", b6, [-9, -7]]], list(range(0, 41)), list(range(1, 13)), 2, "same"),
+        sq = [["square3x3", S, [0, 0]] for S in T.connected_subsets(bases.get("square3x3"), min_size=2, max_size=5)]
+        return [Resampling("fourfold-border-junctions", sq + [["lens", None, [0, 0]]], [0, 1, 3], [2, 3, 6], 1),
+                Resampling("lengths", [["v5x5", b6, [0, 0]], ["v5x5", b6, [-9, -7]]], list(range(0, 41)), list(range(1, 13)), 2, "same"),
                 Resampling("mixed", [["v5x5", b6, [3, -8]]], [["mod3", 0, 4, 11], ["mod3", 7, 1, 0], ["mod3", 2, 17, 5]], [1, 2, 3, 4, 6, 9], 2),
                 Resampling("subtissues", subs, [0, 1, 5], [1, 2, 3, 6], 1),
                 Resampling("seeded", [["v4x4p%d" % (seed + 1), None, [-4, 2]]], [0, 2, 7], [1, 2, 5], 2)]
     subs = [["v5x5", S, [-6, -6]] for S in T.connected_subsets(bases.get("v5x5"))]
-    return [Resampling("lengths", [["v5x5", None, [0, 0]], ["v5x5", None, [-9, -7]], ["v6x5", None, [-3, 4]]], list(range(0, 41)), list(range(1, 13)), 2, "same"),
+    sq = [["square3x3", S, [-2, -2]] for S in T.connected_subsets(bases.get("square3x3"), min_size=2)]
+    return [Resampling("fourfold-border-junctions", sq + [["lens", None, [0, 0]], ["hex3x3", None, [0, 0]]], [0, 1, 3], [2, 3, 6], 2, "same"),
+            Resampling("lengths", [["v5x5", None, [0, 0]], ["v5x5", None, [-9, -7]], ["v6x5", None, [-3, 4]]], list(range(0, 41)), list(range(1, 13)), 2, "same"),
             Resampling("mixed", [["v5x5", None, [3, -8]], ["v6x5", None, [0, 0]]], [["mod3", 0, 4, 11], ["mod3", 7, 1, 0], ["mod3", 2, 17, 5], ["mod3", 40, 0, 3]], list(range(1, 13)), 3),
             Resampling("subtissues", subs, [0, 1, 5], [1, 2, 3, 6], 2, "same"),
             Resampling("seeded", [["v5x4p%d" % (seed + 1), None, [-4, 2]]], [0, 2, 7, 23], [1, 2, 5, 8], 3)]
